@@ -4,7 +4,7 @@
 # 2. runs the /verif check for <ID> against the patched scratch copy
 D=$(cd "$(dirname "$0")" && pwd)
 id="$1"; x="$2"; shift 2
-S="$D/seeded/$id-$x"; [ -d "$S" ] || S="/tmp/seed/$id/out/$x"
+S="$D/seeded/$id-$x"; [ -d "$S" ] || S="${SEEDROOT:-/tmp/seed}/$id/out/$x"
 [ -f "$S/patch.diff" ] || { echo "no seed at $S"; exit 2; }
 M=$(mktemp -d /tmp/seedrepo.XXXXXX); C=$(mktemp -d /tmp/seedclean.XXXXXX)
 trap 'rm -rf "$M" "$C"' EXIT
